@@ -242,7 +242,8 @@ theorem C05_send_not_start (ts : List Tok) (h : ∀ n as rest, ts ≠ .start n a
   | nil => right; rfl
   | cons t rest => cases t <;> first | (left; rfl) | exact absurd rfl (h _ _ _)
 
-/-- `SendElement`: the supplied start element is the outermost tag and the payload is unchanged -/
+/-- `SendElement`: the supplied start element is the outermost tag and everything below it — the
+whole payload, token by token — is passed on unchanged -/
 theorem C05_sendelement_outermost (n : Name) (as : List Attr) (p : List Tok) :
     sendElementToks n as p = .start n as :: p ++ [.stop n] := rfl
 
